@@ -86,6 +86,30 @@ fn main() {
             util::set_rlimit_as(WORKER_RLIMIT_AS);
             engine.aux(&args[3..])
         }
+        "gen-miri-stream" => {
+            // prints a small raw DEFLATE stream without any 3 byte match (4 byte hash) as a Rust array
+            let mut rng = prng::Rng::new(77);
+            let plain = workload::gen_plaintext(&mut rng, 520);
+            let p = lz77::Lz77Params {
+                window_bits: 15,
+                hash_bytes: 4,
+                insert_limit: 0,
+                insert_last: false,
+                lazy: None,
+                nice_length: 258,
+                max_chain: 32,
+                max_dist_3: 0,
+                match_to_start: false,
+                very_far: false,
+                block_tokens: 100000,
+                stored_every: 0,
+                empty_run: 0,
+                literals_only: false,
+            };
+            let enc = lz77::encode(&plain[..520.min(plain.len())], &p);
+            println!("pub const STREAM_3: [u8; {}] = [{}];", enc.len(), enc.iter().map(|b| b.to_string()).collect::<Vec<_>>().join(", "));
+            0
+        }
         "selftest-lz77" => {
             // the harness's own encoder must emit valid DEFLATE: inflate with zlib and compare
             let mut rng = prng::Rng::new(util::env_u64("VERIF_SEED").unwrap_or(1));
